@@ -335,16 +335,58 @@ class Problem:
         STATS["by_verdict"][verdict] = STATS["by_verdict"].get(verdict, 0) + 1
         return verdict, model, dt, info
 
+PORTFOLIO = {
+    # tried concurrently when the first attempt runs into its time limit: other random seeds of the same solver, the distribution's
+    # older z3 and cvc5.  A definite answer (sat / unsat) of any member is an answer; they are all complete decision procedures for
+    # QF_LIA and an answer is never overridden by a time-out.
+    "z3": [lambda path, t: ["z3-new", "-T:%d" % t, "smt.random_seed=7", "sat.random_seed=7", "smt.arith.random_initial_value=true", path],
+           lambda path, t: ["z3-new", "-T:%d" % t, "smt.random_seed=31", "smt.arith.solver=2", path],
+           lambda path, t: ["/usr/bin/z3", "-T:%d" % t, path],
+           lambda path, t: ["cvc5", "--lang", "smt2", "--produce-models", "--tlimit=%d" % (t * 1000), path]],
+}
+FIRST_TRY_S = int(os.environ.get("VERIF_SOLVER_FIRST_TRY", "20"))
+
 def run_solver(text, solver="z3", timeout_s=60):
+    """first attempt under min(timeout, FIRST_TRY_S); on a time-out the portfolio runs concurrently for the full timeout"""
+    if solver not in PORTFOLIO or timeout_s <= FIRST_TRY_S: return run_solver1(text, SOLVERS[solver], timeout_s)
+    v, m = run_solver1(text, SOLVERS[solver], FIRST_TRY_S)
+    if v != "unknown": return v, m
+    STATS["portfolio_runs"] = STATS.get("portfolio_runs", 0) + 1
+    import concurrent.futures as cf
+    ex = ThreadPoolExecutor(max_workers=len(PORTFOLIO[solver]) + 1)
+    futs = [ex.submit(run_solver1, text, mk, timeout_s) for mk in [SOLVERS[solver]] + PORTFOLIO[solver]]
+    best = ("unknown", None)
+    try:
+        for f in cf.as_completed(futs):
+            v, m = f.result()
+            if v in ("sat", "unsat"): best = (v, m); break
+            if v == "error" and best[0] == "unknown": best = (v, m)
+    finally:
+        ex.shutdown(wait=False, cancel_futures=True)
+        for pr in list(_LIVE):
+            if pr.args[-1] in _PORTFOLIO_FILES.get(text.__hash__(), ()):   # stop the losers
+                try: pr.kill()
+                except Exception: pass
+    return best
+
+_LIVE = set(); _PORTFOLIO_FILES = {}
+
+def run_solver1(text, mkcmd, timeout_s=60):
     wd = os.environ.get("VERIF_WORK") or "/var/tmp"
     with tempfile.NamedTemporaryFile("w", suffix=".smt2", delete=False, dir=wd) as f:
         f.write(text); path = f.name
     try:
-        cmd = SOLVERS[solver](path, max(1, int(timeout_s)))
+        cmd = mkcmd(path, max(1, int(timeout_s)))
+        _PORTFOLIO_FILES.setdefault(text.__hash__(), set()).add(path)
+        pr = subprocess.Popen(cmd, stdout=subprocess.PIPE, stderr=subprocess.PIPE, text=True); _LIVE.add(pr)
         try:
-            out = subprocess.run(cmd, capture_output=True, text=True, timeout=timeout_s + 5).stdout
+            out = pr.communicate(timeout=timeout_s + 5)[0]
         except subprocess.TimeoutExpired:
+            pr.kill(); pr.communicate()
             return "unknown", None
+        finally:
+            _LIVE.discard(pr)
+        if pr.returncode is not None and pr.returncode < 0 and not out.strip(): return "unknown", None      # killed (portfolio loser)
         if "(error" in out and "model is not available" not in out: return "error", None
         verdict = "unknown"
         for line in out.splitlines():
@@ -359,5 +401,6 @@ def run_solver(text, solver="z3", timeout_s=60):
                 model[m.group(1)] = -int(re.sub(r'[^\d]', '', v)) if v.startswith("(") else int(v)
         return verdict, model
     finally:
+        _PORTFOLIO_FILES.get(text.__hash__(), set()).discard(path)
         try: os.unlink(path)
         except OSError: pass
